@@ -50,6 +50,8 @@ package container
 //@   abstracts result.2 == nil ==> P.st == recv_next(old(P.st), int(result.0.Cmd))
 //@   abstracts result.2 == nil && old(P.st) == 3 ==> int(result.0.Cmd) == 6 || int(result.0.Cmd) == 7
 //@   abstracts result.2 == nil && old(P.st) == 6 ==> int(result.0.Cmd) == 7
+//@   abstracts result.2 == nil && result.0.ExecCmd != nil && len(result.0.ExecCmd.Argv) > 0 ==> fresh(result.0.ExecCmd.Argv)
+//@   abstracts result.2 == nil && int(result.0.Cmd) == 5 ==> (result.0.ExecCmd != nil && len(result.1.Fds) < 1048576 && (result.0.ExecCmd.Seccomp == nil || (len(result.0.ExecCmd.Seccomp) >= 1 && len(result.0.ExecCmd.Seccomp) <= 65535)) && forall j int :: soff(result.1.Fds) <= j && j < soff(result.1.Fds) + len(result.1.Fds) ==> 0 <= cell(result.1.Fds, j) && cell(result.1.Fds, j) < 2147483648)
 
 // kill arrives on the command channel while the program runs
 //@ func chan.recv:container.containerServer.recvCh
@@ -66,14 +68,18 @@ package container
 //@ func container.(*containerServer).serve props C10 C16
 //@   arith int
 //@   requires P.st == 0
-//@   assigns P.st
+//@   assigns P.st, S._all, FD._all, W._all, K._all, O._all
 //@   loop 0: invariant P.st == 0 || P.st == 9
 
 //@ func container.(*containerServer).handleCmd props C10
 //@   arith int
 //@   requires P.st == recv_next(0, int(cmd.Cmd))
-//@   assigns P.st
+//@   requires int(cmd.Cmd) == 5 ==> (cmd.ExecCmd != nil && len(msg.Fds) < 1048576 && (cmd.ExecCmd.Seccomp == nil || (len(cmd.ExecCmd.Seccomp) >= 1 && len(cmd.ExecCmd.Seccomp) <= 65535)) && forall j int :: soff(msg.Fds) <= j && j < soff(msg.Fds) + len(msg.Fds) ==> 0 <= cell(msg.Fds, j) && cell(msg.Fds, j) < 2147483648)
+//@   assigns P.st, S._all, FD._all, W._all, K._all, O._all
 //@   ensures result == nil ==> P.st == 0 || P.st == 9
+//@   case int(cmd.Cmd) == 5 && cmd.ExecCmd != nil:
+//@     assigns all(cmd.ExecCmd.Argv)
+//@   endcase
 
 //@ func container.(*containerServer).handlePing props C10
 //@   arith int
@@ -110,7 +116,7 @@ package container
 //@ func container.(*containerServer).handleExecveStarted props C10 C12
 //@   arith int
 //@   requires P.st == 5
-//@   assigns P.st
+//@   assigns P.st, W._all
 //@   ensures result == nil ==> P.st == 0 || P.st == 9
 
 // The sync callback: reply with the pid (sync), then wait for ok / kill.
